@@ -38,6 +38,17 @@ class _WithoutNested:
 
 def judge(repo, fmt, dirty_expected, obs, via):
     out = _judge(repo, fmt, dirty_expected, obs, via)
+    if len(out) == 1 and out[0][0] == "distance-differs" and obs.get("tag"):
+        # recorded finding: zerv takes the distance from `git rev-list --count <tag>..HEAD`, and git's revision walk is a date-ordered heuristic that
+        # over-counts when committer dates run backwards along the history (an ancestor of the tag stamped later than its descendants is not
+        # recognised as uninteresting in time). Attributed to it only when native git itself gives exactly the number zerv reported.
+        try:
+            g = repo.git("rev-list", "--count", "%s..HEAD" % obs["tag"])
+        except Exception:
+            g = None
+        if g is not None and g.strip() == str(obs.get("distance")):
+            return [("distance-follows-git-revlist-under-clock-skew", "%s; `git rev-list --count %s..HEAD` itself answers %s in this history of out-of-order committer dates" % (
+                out[0][1], obs["tag"], g.strip()))]
     if out and not out[0][0].startswith("panic") and any(t.get("nested") for t in repo.tags):
         # recorded finding: a version tag that is an annotated tag of a tag is not seen. Attributed to it only when zerv's whole answer is
         # exactly what the model says for the repository without those tags
